@@ -96,6 +96,15 @@ def m_vec_truncate(ex, st, a, dst, callee):
     return [(Tup([]), [], None)]
 
 
+def m_extend_from_slice(ex, st, a, dst, callee):
+    v = deref_val(ex, st, a[0])
+    src = buf_of(ex, st, a[1])
+    if not isinstance(v, PyVec):
+        return None
+    ex._write(st, a[0].root, list(a[0].projs), PyVec(list(v.items) + list(src.items)))
+    return [(Tup([]), [], None)]
+
+
 def m_vec_with_capacity(ex, st, a, dst, callee):
     return [(PyVec(), [], None)]
 
@@ -158,6 +167,7 @@ def m_box_into_vec(ex, st, a, dst, callee):
 
 T = r"(?:\(.*\)|Vec<u8>|Vec<u32>|PageId|PathEntry|usize|u64|u32|EdgeRecord|I2eRecord|nervusdb_api::EdgeKey)"
 VEC_MODELS = [
+    (r"^Vec::<.*>::extend_from_slice$", m_extend_from_slice),
     (r"^Box::<\[.*; \d+\]>::new_uninit$", m_box_new_uninit),
     (r"^std::boxed::box_assume_init_into_vec_unsafe::<", m_box_into_vec),
     (r"^<std::ops::Range<usize> as Iterator>::map::<", m_range_map),
